@@ -296,18 +296,25 @@ def postMoney (q : Req) (entropy : Nat) : Nat :=
   let m := if Gen.Post.MAX_POST_MONEY > 0 ∧ entropy ≥ Gen.Post.MAX_POST_MONEY then Gen.Post.MAX_POST_MONEY else entropy
   if !q.credit || useAnony q.anon then 0 else m
 
+/-- `FileHeaderRaw.SetMoney` / `SetAnonUID` (after e2eca4c): `PutUint32` into the `Multi` field. -/
+def storedMulti (v : Nat) : Nat := v
+
+/-- before e2eca4c: `bytes.NewBuffer(f.Multi[:4])` followed by a write APPENDS to a reallocated copy, so the
+`Multi` field of the header kept its zero bytes. -/
+def storedMultiOld (_v : Nat) : Nat := 0
+
 def postRecord (q : Req) (e : Env) (title : Bytes) (money : Nat) : Bytes :=
   if useAnony q.anon then
-    recordImage e.name 0 Gen.Post.ANONYMOUS_ID e.date title q.uid Gen.Post.FILE_ANONYMOUS
+    recordImage e.name 0 Gen.Post.ANONYMOUS_ID e.date title (storedMulti q.uid) Gen.Post.FILE_ANONYMOUS
   else
-    recordImage e.name e.mtime q.userID e.date title money 0
+    recordImage e.name e.mtime q.userID e.date title (storedMulti money) 0
 
 /-- the record `doCrosspost` appends to ALLPOST: the header with the new title, FILE_LOCAL, Modified = now. -/
 def crossRecord (q : Req) (e : Env) (money : Nat) : Bytes :=
   if useAnony q.anon then
-    recordImage e.name e.xmtime Gen.Post.ANONYMOUS_ID e.date e.xtitle q.uid 1
+    recordImage e.name e.xmtime Gen.Post.ANONYMOUS_ID e.date e.xtitle (storedMulti q.uid) 1
   else
-    recordImage e.name e.xmtime q.userID e.date e.xtitle money 1
+    recordImage e.name e.xmtime q.userID e.date e.xtitle (storedMulti money) 1
 
 def bumpUser (us : List (Bytes × Nat)) (id : Bytes) : List (Bytes × Nat) :=
   us.map fun u => if u.1 == id then (u.1, u.2 + 1) else u
@@ -354,6 +361,14 @@ def post (s : St) (q : Req) (e : Env) : M (St × Outcome) :=
     pure ({ boards := boards2, users := users', postLog := log' },
           .posted { idx := idx, title := title, record := record, content := fe.1, money := money,
                     logRec := logRec, xrecord := xrecord })
+
+/-- a post whose article file cannot be written completely (`addSignature` reports the write error; the errors
+of the line writes are ignored): `writeHeaderAuthorBoard` has already appended the .post record, and
+`DoPostArticle` returns the error before `AppendRecord` — index, totals and counters stay as they were. -/
+def postWriteFails (s : St) (q : Req) (e : Env) : M St := do
+  let title ← postTitle q.role q.cls q.title
+  let a := headerAuthor q.anon q.userID q.nick
+  pure { s with postLog := (C05.appendRecord s.postLog logSz (postLogImage a.1 q.board title e.logDate)).1 }
 
 /-- `bbs.CreateArticle`: `BBoardID.ToRaw` (after 469db79) refuses a board id whose name half is not the name of
 the board its number half designates; everything else is `ptt.NewPost`. -/
